@@ -148,7 +148,11 @@ theorem linear_monotonic_dominance (monos : List Int) (md : Pairs) (w : List Rat
 /-- the range-dominance stage: weights are scaled by `scalings`, projected, and un-scaled.
 For every `(dominant, weak)` pair the scaled slopes are ordered afterwards; signs survive;
 inputs outside the range-dominance pairs keep their value, **provided no scaling factor is
-zero** (a zero input range makes the real code divide by zero: finding F-C16-a). -/
+zero** (`hsc`: the model divides in ℚ, where `x / 0 = 0`, the real code would return NaN — findings
+F-C16-a, a zero range ON a dominance dimension, rejected at construction since 7189cd2, and
+F-C06-a, a zero range on a dimension OUTSIDE the dominances, scaled by `±1` since 44c9e89). For every
+configuration accepted by the constructor model `hsc` is PROVED: `Tfl.C06.accepted_scalings`,
+`accepted_range_dominance`, `accepted_fixpoint` (Props/C06Accepted.lean). -/
 theorem linear_range_dominance (monos : List Int) (rd : Pairs) (sc w2 : List Rat) (order : List Nat)
     (hv : ValidOrder (swapPairs rd) order) (hin : ∀ a ∈ order, a < w2.length)
     (hlen : w2.length = sc.length) (hsc : ∀ k, k < sc.length → getV sc k ≠ 0)
@@ -251,25 +255,25 @@ theorem linear_fixpoint (monos : List Int) (md rd : Pairs) (los his : List (Opti
     (h2 : rd ≠ [] → topoSort (swapPairs rd) = some o2)
     (hsign : ∀ k, SignOk (getM monos k) (getV w k))
     (hmd : ∀ c ∈ md, getV w c.2 ≤ getV w c.1)
-    (hlen : w.length = (scalings monos los his).length)
-    (hsc : ∀ k, k < (scalings monos los his).length → getV (scalings monos los his) k ≠ 0)
-    (hrd : ∀ c ∈ rd, getV (scalings monos los his) c.2 * getV w c.2 ≤
-                      getV (scalings monos los his) c.1 * getV w c.1) :
+    (hlen : w.length = (scalings monos rd los his).length)
+    (hsc : ∀ k, k < (scalings monos rd los his).length → getV (scalings monos rd los his) k ≠ 0)
+    (hrd : ∀ c ∈ rd, getV (scalings monos rd los his) c.2 * getV w c.2 ≤
+                      getV (scalings monos rd los his) c.1 * getV w c.1) :
     projectPre monos md rd los his w = .ok w := by
   have e1 : signClip monos w = w := signClip_fix monos w hsign
   have f1 : Feasible (swapPairs md) w := fun c hc => hmd (c.2, c.1) (mem_swapPairs.mp hc)
-  have hws : ∀ k, getV (mulV w (scalings monos los his)) k = getV w k * getV (scalings monos los his) k :=
+  have hws : ∀ k, getV (mulV w (scalings monos rd los his)) k = getV w k * getV (scalings monos rd los his) k :=
     fun k => getV_zipWith (· * ·) (by simp) _ _ hlen k
-  have f2 : Feasible (swapPairs rd) (mulV w (scalings monos los his)) := by
+  have f2 : Feasible (swapPairs rd) (mulV w (scalings monos rd los his)) := by
     intro c hc
     have := hrd (c.2, c.1) (mem_swapPairs.mp hc)
-    rw [hws, hws]; simp only at this; linarith [mul_comm (getV w c.1) (getV (scalings monos los his) c.1),
-      mul_comm (getV w c.2) (getV (scalings monos los his) c.2)]
-  have hdiv : divV (mulV w (scalings monos los his)) (scalings monos los his) = w := by
+    rw [hws, hws]; simp only at this; linarith [mul_comm (getV w c.1) (getV (scalings monos rd los his) c.1),
+      mul_comm (getV w c.2) (getV (scalings monos rd los his) c.2)]
+  have hdiv : divV (mulV w (scalings monos rd los his)) (scalings monos rd los his) = w := by
     apply List.ext_getElem (by simp [divV, mulV, hlen])
     intro k hk1 hk2
     have hk : k < w.length := hk2
-    have hks : k < (scalings monos los his).length := hlen ▸ hk
+    have hks : k < (scalings monos rd los his).length := hlen ▸ hk
     simp only [divV, mulV, List.getElem_zipWith]
     have := hsc k hks
     simp only [getV, List.getD, List.getElem?_eq_getElem hks, Option.getD_some] at this
@@ -380,7 +384,8 @@ theorem linear_monotonic_dominance_acyclic (monos : List Int) (md : Pairs) (w : 
   exact ⟨_, hap, linear_monotonic_dominance monos md w order hv
     (fun a ha => by simpa [length_signClip] using hin' a ha) hinc⟩
 
-/-- **C06 (Linear, range dominance), order validity proved** (no scaling factor zero: F-C16-a). -/
+/-- **C06 (Linear, range dominance), order validity proved** (no scaling factor zero: F-C16-a,
+F-C06-a; discharged for accepted configurations in Props/C06Accepted.lean). -/
 theorem linear_range_dominance_acyclic (monos : List Int) (rd : Pairs) (sc w2 : List Rat)
     (hne : rd ≠ []) (hacyc : Acyclic rd) (hin : ∀ a, IsNode rd a → a < w2.length)
     (hlen : w2.length = sc.length) (hsc : ∀ k, k < sc.length → getV sc k ≠ 0)
@@ -403,10 +408,10 @@ theorem linear_fixpoint_acyclic (monos : List Int) (md rd : Pairs) (los his : Li
     (w : List Rat) (hamd : Acyclic md) (hard : Acyclic rd)
     (hsign : ∀ k, SignOk (getM monos k) (getV w k))
     (hmd : ∀ c ∈ md, getV w c.2 ≤ getV w c.1)
-    (hlen : w.length = (scalings monos los his).length)
-    (hsc : ∀ k, k < (scalings monos los his).length → getV (scalings monos los his) k ≠ 0)
-    (hrd : ∀ c ∈ rd, getV (scalings monos los his) c.2 * getV w c.2 ≤
-                      getV (scalings monos los his) c.1 * getV w c.1) :
+    (hlen : w.length = (scalings monos rd los his).length)
+    (hsc : ∀ k, k < (scalings monos rd los his).length → getV (scalings monos rd los his) k ≠ 0)
+    (hrd : ∀ c ∈ rd, getV (scalings monos rd los his) c.2 * getV w c.2 ≤
+                      getV (scalings monos rd los his) c.1 * getV w c.1) :
     projectPre monos md rd los his w = .ok w := by
   have key : ∀ cs : Pairs, Acyclic cs → ∃ o, cs ≠ [] → topoSort (swapPairs cs) = some o := by
     intro cs hac
